@@ -390,6 +390,14 @@ theorem runActs_mono {t : Rat} {x : Ctx} (acts : List Act) (hn : NonNeg acts) {s
       exact ih' (h1.of_same p1 p2 p3)
     | raise => exact h1.of_same rfl rfl rfl
     | setBeats i b => exact absurd (by simp) (hn.2.1 i b)
+    | save k r =>
+      simp only
+      repeat' split
+      all_goals first | exact ih' h1 | exact ih' (h1.of_same rfl rfl rfl)
+    | restore k r =>
+      simp only
+      repeat' split
+      all_goals first | exact ih' h1 | exact ih' (h1.of_same rfl rfl rfl)
     | defer r c d =>
       simp only
       have hd : 0 ≤ d := hn.2.2 r c d (by simp)
@@ -600,6 +608,14 @@ theorem runActs_script (acts : List Act) (x : Ctx) (s : S) (i : Nat) :
       · rw [ih]; exact hb i
       · rw [ih]; exact hb i
     | setBeats j b => simp only; rw [ih]; exact hb i
+    | save k r =>
+      simp only
+      repeat' split
+      all_goals (rw [ih]; exact hb i)
+    | restore k r =>
+      simp only
+      repeat' split
+      all_goals (rw [ih]; exact hb i)
     | defer r c d => simp only; rw [ih, add_script]; refine (hset _ _ _ ?_).trans (hb i); rfl
     | pause r =>
       simp only
@@ -695,7 +711,7 @@ theorem stepNrt_good {s : S} (h : Good s) :
 /-- Actions of the C05 statement: everything except pause / resume / wait / signal (which
     restart a routine from another routine's time and belong to C10 / C11). -/
 def Act.plain : Act → Bool
-  | .pause _ | .resume _ | .wait _ | .signal _ | .pull _ | .defer _ _ _ => false
+  | .pause _ | .resume _ | .wait _ | .signal _ | .pull _ | .defer _ _ _ | .save _ _ | .restore _ _ => false
   | _ => true
 
 def deltaOf : Act → Rat
@@ -1072,6 +1088,8 @@ theorem runActs_exact {x : Ctx} (acts : List Act) {s : S} (h : ExactRun s x)
     | signal c => simp [Act.plain] at hpl
     | pull r => simp [Act.plain] at hpl
     | defer r c d => simp [Act.plain] at hpl
+    | save k r => simp [Act.plain] at hpl
+    | restore k r => simp [Act.plain] at hpl
 
 /-- Executing ANY pending task (whichever clock thread the environment picks, or the one
     `main.process()` picks) keeps `Exact`. -/
@@ -1172,6 +1190,14 @@ theorem runActs_trace_mono (acts : List Act) (x : Ctx) (s : S) (ev : Ev) (h : ev
       · exact ih _ (List.mem_cons_of_mem _ hb)
     | setBeats i b => exact ih _ hb
     | defer r c d => exact ih _ hb
+    | save k r =>
+      simp only
+      repeat' split
+      all_goals exact ih _ hb
+    | restore k r =>
+      simp only
+      repeat' split
+      all_goals exact ih _ hb
     | pause r =>
       simp only
       repeat' split
@@ -1305,6 +1331,8 @@ theorem runActs_traceExact (acts : List Act) (x : Ctx) {s : S} (h : TraceExact s
     | signal c => simp [Act.plain] at hpl
     | pull r => simp [Act.plain] at hpl
     | defer r c d => simp [Act.plain] at hpl
+    | save k r => simp [Act.plain] at hpl
+    | restore k r => simp [Act.plain] at hpl
 
 /-- Executing a pending task whose beat obeys the law (`Exact`) keeps `TraceExact`. -/
 theorem exec_traceExact {s : S} (h : TraceExact s) (hE : Exact s) {e : Entry} (he : e ∈ s.pend) :
